@@ -26,8 +26,10 @@ def sig_of(rej, scn):
         return "C02:items:spurious-ESC-backslash" + (":" + at[2] if len(at) > 2 and at[2] else "")
     if _has_fffd(w) and not _has_fffd(g):
         return "C02:items:U+FFFD-altered-in-%s" % _t(w)
-    if isinstance(w, dict) and w.get("t") == "esc" and w.get("f") == 92 and _t(g) != "esc":
-        return "C02:items:lost-ESC-backslash"
+    if isinstance(w, dict) and w.get("t") == "esc" and w.get("f") == 92 and not w.get("i") and \
+            not (isinstance(g, dict) and g.get("t") == "esc" and g.get("f") == 92 and not g.get("i")):
+        # at[2]: the oracle's marker of the situation this ESC \\ is in (after an abandoned DCS header, ESC ESC \\ after a string)
+        return "C02:items:lost-ESC-backslash" + (":" + at[2] if len(at) > 2 and at[2] else "")
     return "C02:items:want=%s:got=%s" % (_t(w), _t(g))
 
 
@@ -36,7 +38,9 @@ def main(c):
     specs = c.stage_specs("parser")
     c.assumptions += [
         "UAX#29 segmentation and widths are logged facts from rivo/uniseg (trusted base)",
-        "input is UTF-8: no 8-bit C1 controls; a non-ASCII scalar inside an escape/control sequence cancels it and whether it is printed is unconstrained",
+        "input is UTF-8: no 8-bit C1 controls; a non-ASCII scalar inside an escape/control sequence cancels it and whether it is printed is unconstrained; "
+        "in the header of a device control string it may also be ignored, be taken as the final character or turn the string into an ignored one (each followed consistently to the end of the input)",
+        "an ESC \\ is withheld only when its ESC ended a string state; optional when its ESC cut a DCS header short or a C0 control came between the two; delivered in every other place (after BEL/CAN/SUB, after a second ESC, after a cancelled sequence)",
         "more than 16 CSI parameters: only the first 16 are prescribed; a parameter value of 19 digits or more (beyond a 64-bit integer) is unconstrained, smaller ones are compared exactly as digit sequences",
     ]
     if not c.replay:
